@@ -600,7 +600,8 @@ class ExprMixin:
                 d.update(self.st.heap[dv.t].d)
             else:
                 kv = self.ev(k)
-                d[key_of(kv)] = self.ev(v)
+                tmp = HDict(d)
+                d[self.dict_key(tmp, kv)] = self.ev(v)
         return SV('dict', self.st.alloc(HDict(d)))
 
     def ev_JoinedStr(self, e):
@@ -779,6 +780,8 @@ class ExprMixin:
             return self.call_method(base, '__getitem__', [idx], {}, node)
         if '__getitem__' in self.opq_models().get(base.x or 'any', {}):
             return self.opq_call(base, '__getitem__', [idx], {}, node)
+        if base.k == 'opq' and base.x == 'unknown':
+            return SV('opq', self.sym('unknown_item', OPQ), 'unknown')
         raise Unsupported(f'opaque __getitem__ on {base.x}')
 
     def ev_Lambda(self, e):
